@@ -202,3 +202,16 @@ def c15(run):
 @prop("C18")
 def c18(run):
     return B.check_c18(run)
+
+
+import rsfam as R  # noqa: E402
+
+
+@prop("C08")
+def c08(run):
+    return R.check_c08(run)
+
+
+@prop("C10")
+def c10(run):
+    return R.check_c10(run)
